@@ -13,13 +13,32 @@ CH == EncHs([t |-> "ClientHello", ver |-> 771, random |-> R32, sid |-> Some(<<1,
              ext |-> Some(<<0, 0, 0, 6, 0, 4, 0, 0, 1, 97>>)])
 CERT == EncHs([t |-> "Certificate", chain |-> << <<48, 1>>, <<>>, <<1, 2, 3>> >>])
 Sc == [ver |-> 0, id |-> Fill(1, 32), ts |-> <<1, 2, 3, 4>>, ext |-> <<7>>, sig |-> [alg |-> Some([hash |-> 4, sign |-> 3]), data |-> <<9, 9>>]]
-Ok_(fn, a, s) == [fn |-> fn, a |-> a, s |-> s, good |-> TRUE]
-Bad(fn, a, s) == [fn |-> fn, a |-> a, s |-> s, good |-> FALSE]
+Ok_(fn, a, s) == [fn |-> fn, a |-> a, s |-> s, good |-> TRUE, strict |-> TRUE]
+Bad(fn, a, s) == [fn |-> fn, a |-> a, s |-> s, good |-> FALSE, strict |-> TRUE]
+(* a framed structure whose verdict the pool does not presume (accepted, rejected or incomplete inside its own frame): whatever it is, *)
+(* it is the same with bytes after it, and when it is a value the value is the same                                                    *)
+Any_(fn, a, s) == [fn |-> fn, a |-> a, s |-> s, good |-> FALSE, strict |-> FALSE]
+(* the 16 tag-prefixed extension parsers on their own tag with declared lengths 0, 1, 2, 3 and 5: the content parser gets exactly the *)
+(* declared bytes, short or long as they may be for the type                                                                           *)
+TagFns == << <<"parse_tls_extension_sni", 0>>, <<"parse_tls_extension_max_fragment_length", 1>>, <<"parse_tls_extension_status_request", 5>>,
+             <<"parse_tls_extension_elliptic_curves", 10>>, <<"parse_tls_extension_ec_point_formats", 11>>, <<"parse_tls_extension_signature_algorithms", 13>>,
+             <<"parse_tls_extension_heartbeat", 15>>, <<"parse_tls_extension_encrypt_then_mac", 22>>, <<"parse_tls_extension_extended_master_secret", 23>>,
+             <<"parse_tls_extension_session_ticket", 35>>, <<"parse_tls_extension_pre_shared_key", 41>>, <<"parse_tls_extension_early_data", 42>>,
+             <<"parse_tls_extension_supported_versions", 43>>, <<"parse_tls_extension_cookie", 44>>, <<"parse_tls_extension_psk_key_exchange_modes", 45>>,
+             <<"parse_tls_extension_key_share", 51>> >>
+TagLens == <<0, 1, 2, 3, 5>>
+TagBodies == << <<1, 0, 2, 3, 4>>, <<0, 3, 1, 2, 3>> >>
+TagPool == [q \in 1..(Len(TagFns) * Len(TagLens) * Len(TagBodies)) |->
+  LET f == TagFns[((q - 1) \div (Len(TagLens) * Len(TagBodies))) + 1]
+      n == TagLens[(((q - 1) \div Len(TagBodies)) % Len(TagLens)) + 1]
+      b == TagBodies[((q - 1) % Len(TagBodies)) + 1] IN
+  Any_(f[1], NoArgs, BE16(f[2]) \o BE16(n) \o SubSeq(b, 1, n))]
+
 Sig1 == [NoArgs EXCEPT !.sub = "dh", !.ext = 1]
 Sig0 == [NoArgs EXCEPT !.sub = "ecdh", !.ext = 0]
 
 BadSidCh == <<1, 0, 0, 74, 3, 3>> \o Fill(5, 32) \o <<33>> \o Fill(6, 33) \o <<0, 2, 0, 47, 1, 0>>
-Pool == <<
+Pool0 == <<
   Ok_("parse_tls_plaintext", NoArgs, EncRecordRaw(22, 771, <<14, 0, 0, 0>> \o CH)),
   Ok_("parse_tls_plaintext", NoArgs, EncRecordRaw(21, 771, <<1, 0>>)),
   Ok_("parse_tls_plaintext", NoArgs, EncRecordRaw(24, 771, <<1, 0, 1, 7, 0, 0>>)),
@@ -103,8 +122,21 @@ Pool == <<
   Bad("parse_tls_extension", NoArgs, <<0, 22, 0, 1, 0>>),                                        \* empty-only extension with data
   Bad("parse_ct_signed_certificate_timestamp", NoArgs, <<0, 3, 0, 1, 2>>),                       \* entry shorter than an SCT
   Bad("parse_ec_parameters", NoArgs, <<2, 0, 23>>),                                              \* unsupported curve type
-  Bad("parse_ecdh_params", NoArgs, <<7, 0, 23, 1, 4>>)
+  Bad("parse_ecdh_params", NoArgs, <<7, 0, 23, 1, 4>>),
+  (* records whose payload ends inside the NEXT message (a complete message, then a header announcing more than is there; then 1..3 bytes): *)
+  (* through a fresh stateful parser the complete messages are returned, borrowed from the record, exactly as by the one-shot parsers      *)
+  Any_("fresh_parse_record", NoArgs, EncRecordRaw(22, 771, <<14, 0, 0, 0, 11, 0, 0, 5, 1>>)),
+  Any_("fresh_parse_record", NoArgs, EncRecordRaw(22, 771, <<14, 0, 0, 0, 11, 0, 0>>)),
+  Any_("fresh_parse_record", NoArgs, EncRecordRaw(22, 771, <<14, 0, 0, 0, 11, 0, 0, 5>>)),
+  Any_("fresh_parse_record", NoArgs, EncRecordRaw(22, 771, CH \o <<2, 0, 0, 40, 3, 3>>)),
+  Any_("fresh_parse_record", NoArgs, EncRecordRaw(22, 769, <<16, 0, 0, 2, 1, 2, 20, 0, 0, 12, 1, 2, 3>>)),
+  Any_("fresh_parse_record", NoArgs, EncRecordRaw(21, 771, <<1, 0, 2>>)),
+  Any_("parse_tls_plaintext", NoArgs, EncRecordRaw(22, 771, <<14, 0, 0, 0, 11, 0, 0, 5, 1>>)),
+  Any_("two_step", NoArgs, EncRecordRaw(22, 771, <<14, 0, 0, 0, 11, 0, 0, 5, 1>>)),
+  Any_("two_step", NoArgs, EncRecordRaw(22, 771, CH \o <<2, 0, 0, 40, 3, 3>>))
   >>
+ASSUME TLCSet(4, Pool0 \o TagPool)
+Pool == TLCGet(4)
 Sfx(s) == << <<>>, <<0>>, s, <<22, 3, 3, 255, 255>>, <<255, 255, 255, 255, 255, 255, 255, 255, 255>> >>
           \o [n \in 1..12 |-> [j \in 1..n |-> (7 * j) % 256]]      \* every suffix length 1..12
 (* what follows may also be a structure that a parser REJECTS HARD (a well-framed record holding a ClientHello with a 33-byte session id): *)
@@ -127,7 +159,7 @@ Base(j) == Apply(PoolOf(j).fn, PoolOf(j).a, PoolOf(j).s)
 (* Local: appending bytes leaves value and consumed length unchanged (ranges are relative, so equality is literal) *)
 Local == PoolOf(i).good => (Base(i).k = "ok" /\ Base(i).p = Len(PoolOf(i).s) /\ res = Base(i))
 (* ClassStable: on inputs that already contain the declared length the outcome class does not change *)
-ClassStable == res.k = Base(i).k /\ (~PoolOf(i).good => res.k # "ok")
+ClassStable == res.k = Base(i).k /\ ((~PoolOf(i).good /\ PoolOf(i).strict) => res.k # "ok") /\ (Base(i).k = "ok" => res = Base(i))
 (* where the specification answers with an error the CLASS is pinned: a complete malformed structure is an error, not a request for more *)
 Pin == IF res.k = "ok" THEN "full" ELSE IF res.k \in {"err", "fail"} THEN "reject" ELSE "novalue"
 EmitCase == LET c == PoolOf(i) IN EmitLine(CaseLine(i, c.fn, c.a, PartsOf(i), res, Pin, [good |-> c.good, sfx |-> (i - 1) % NSfx]))
